@@ -441,6 +441,9 @@ func decodeSCTPInit(data []byte, p gopacket.PacketBuilder) error {
 	if err != nil {
 		return err
 	}
+	if chunk.Length < 20 {
+		return errors.New("invalid SCTP init chunk length")
+	}
 	sc := &SCTPInit{
 		SCTPChunk:                      chunk,
 		InitiateTag:                    binary.BigEndian.Uint32(data[4:8]),
@@ -506,6 +509,9 @@ func decodeSCTPSack(data []byte, p gopacket.PacketBuilder) error {
 	if err != nil {
 		return err
 	}
+	if chunk.Length < 16 {
+		return errors.New("invalid SCTP sack chunk length")
+	}
 	sc := &SCTPSack{
 		SCTPChunk:                      chunk,
 		CumulativeTSNAck:               binary.BigEndian.Uint32(data[4:8]),
@@ -526,6 +532,9 @@ func decodeSCTPSack(data []byte, p gopacket.PacketBuilder) error {
 	}
 	if dupTSNs > int(sc.NumDuplicateTSNs) {
 		dupTSNs = int(sc.NumDuplicateTSNs)
+	}
+	if 16+2*int(sc.NumGapACKs)+4*int(sc.NumDuplicateTSNs) > int(chunk.Length) {
+		return errors.New("SCTP sack chunk too short for its gap ack and duplicate TSN counts")
 	}
 	sc.GapACKs = make([]uint16, 0, gapAcks)
 	sc.DuplicateTSNs = make([]uint32, 0, dupTSNs)
@@ -699,6 +708,9 @@ func decodeSCTPShutdown(data []byte, p gopacket.PacketBuilder) error {
 	chunk, err := decodeSCTPChunk(data)
 	if err != nil {
 		return err
+	}
+	if chunk.Length < 8 {
+		return errors.New("invalid SCTP shutdown chunk length")
 	}
 	sc := &SCTPShutdown{
 		SCTPChunk:        chunk,
